@@ -70,10 +70,15 @@ def arg? (w : String) : Option Arg :=
   else match w.toList with
     | 'n' :: h => (f64? (String.ofList h)).map .num
     | 'o' :: h => (f64? (String.ofList h)).map .obj
+    | 'm' :: h => match (String.ofList h).splitOn "_" with
+      | [x, m] => match f64? x, f64? m with
+        | some x, some m => some (.mut x m)
+        | _, _ => none
+      | _ => none
     | _ => none
 
 def toSpecArg : Arg → Spec.Arg
-  | .num x => .num x | .obj x => .obj x | .thrower => .thrower
+  | .num x => .num x | .obj x => .obj x | .thrower => .thrower | .mut x m => .mut x m
 
 def sstep? (w : String) : Option (Setter × List Arg) :=
   match w.splitOn ":" with
@@ -119,10 +124,19 @@ def runDev (d : DateObj) (tv : Spec.TV) : List (Setter × List FV) → List Stri
 
 def argVals (as : List Arg) : List FV := as.filterMap Arg.val?
 
+/-- region invalid_setter_not_stored: the date is invalid at entry, a valueOf re-enters setTime with a valid time,
+    and the setter is one that returns NaN early without writing the object -/
+def notStored (revives : Bool) (d : DateObj) (as : List Arg) : Bool :=
+  !revives && d.isNaN && !(as.any (fun x => x.val?.isNone)) &&
+  (match lastMut as with
+   | some m => (Spec.clipNumber m).isSome
+   | none => false)
+
 def runDevS (d : DateObj) (tv : Spec.TV) : List (Setter × List Arg) → List String → List String
   | [], devs => devs
   | (k, a) :: rest, devs =>
     let threw := (a.take k.limit).any (fun x => x.val?.isNone)
+    let devs := if notStored (k = .time || k = .year) d (a.take k.limit) then devs ++ ["invalid_setter_not_stored"] else devs
     let devs := if !threw && setterHuge k d tv (argVals a) then devs ++ ["huge_field_cancel"] else devs
     runDevS (setUTCS k d a).1 (Spec.setUTCS (toSpecSetter k) tv (a.map toSpecArg)).1 rest devs
 
@@ -262,6 +276,23 @@ def runLocalDev (z : Zone) (sz : Spec.Zone) (d : DateObj) (tv : Spec.TV) : List 
   | (k, a) :: rest, devs =>
     runLocalDev z sz (setLocal z k d a).1 (Spec.setLocal sz (toSpecLSetter k) tv a) rest (devs ++ localDev z sz k d tv a)
 
+def lsstep? (w : String) : Option (LSetter × List Arg) :=
+  match w.splitOn ":" with
+  | [k, a] => do
+    let k ← lsetterM? k
+    let as ← if a.isEmpty then some [] else (a.splitOn ",").mapM arg?
+    pure (k, as)
+  | _ => none
+
+def runLocalDevS (z : Zone) (sz : Spec.Zone) (d : DateObj) (tv : Spec.TV) : List (LSetter × List Arg) → List String → List String
+  | [], devs => devs
+  | (k, a) :: rest, devs =>
+    let as := a.take k.limit
+    let threw := as.any (fun x => x.val?.isNone)
+    let devs := if notStored (k = .year || k = .year2) d as then devs ++ ["invalid_setter_not_stored"] else devs
+    let devs := if !threw then devs ++ localDev z sz k d tv (argVals a) else devs
+    runLocalDevS z sz (setLocalS z k d a).1 (Spec.setLocalS sz (toSpecLSetter k) tv (a.map toSpecArg)).1 rest devs
+
 def obsLocalModel (z : Zone) (d : DateObj) : String := join ((observeLocal z d).map numOut)
 def obsLocalSpec (z : Spec.Zone) (tv : Spec.TV) : String := join ((Spec.observeLocal z tv).map numOut)
 
@@ -303,6 +334,14 @@ def handleLocal (z : Zone) (sz : Spec.Zone) (abbrevZ : Bool) (ws : List String) 
       let devs := runLocalDev z sz (newDate v) (Spec.clipNumber v) hs []
       some (reply (join (rs.map numOut) ++ "|" ++ obsModel df ++ "|" ++ obsLocalModel z df)
                   (join (ss.map numOut) ++ "|" ++ obsSpec tf ++ "|" ++ obsLocalSpec sz tf) (devList devs))
+    | _, _ => some "bad-op"
+  | "lsset" :: a :: steps => match f64? a, steps.mapM lsstep? with
+    | some v, some hs =>
+      let (df, rs) := runLocalSettersS z (newDate v) hs
+      let (tf, ss) := Spec.runLocalSettersS sz (Spec.clipNumber v) (hs.map (fun s => (toSpecLSetter s.1, s.2.map toSpecArg)))
+      let devs := runLocalDevS z sz (newDate v) (Spec.clipNumber v) hs []
+      some (reply (join (rs.map (fun r => logOut r.2 ++ ":" ++ outcomeOut r.1)) ++ "|" ++ obsModel df)
+                  (join (ss.map (fun r => logOut r.2 ++ ":" ++ outcomeOutS r.1)) ++ "|" ++ obsSpec tf) (devList devs))
     | _, _ => some "bad-op"
   | "ctor" :: as => match as.mapM f64? with
     | some args =>
